@@ -15,12 +15,17 @@
 (*    binary, GOGARBLE, build-affecting flags): KeyFields.                  *)
 (* 2. cmd/go's obfuscated build recompiles a package iff its action ID,     *)
 (*    which hashes the source, the go-level inputs, the tool ID             *)
-(*    (alterToolVersion: KeyFields again) and the content of its imports'   *)
-(*    OBFUSCATED objects, is absent from GOCACHE.                           *)
+(*    (alterToolVersion: KeyFields again) and the content of its DIRECT     *)
+(*    imports' OBFUSCATED objects, is absent from GOCACHE.  An obfuscated   *)
+(*    object depends on the package's own source and transformation inputs  *)
+(*    and on the EXPORT DATA (API and obfuscated names) of what it imports. *)
 (* 3. a recompiled package is transformed with what ObfFieldsOf lists plus  *)
 (*    its name salt (its GarbleActionID, or the seed), the name salts of    *)
-(*    its imports and the reflection facts of its whole import closure,     *)
-(*    loaded from GARBLE_CACHE/build under its GarbleActionID               *)
+(*    its imports and the reflection facts - including the obfuscated names *)
+(*    of the types that reach reflection - of its whole import closure,     *)
+(*    loaded from GARBLE_CACHE/build under a key derived from the           *)
+(*    GarbleActionIDs of the package and of its whole import closure        *)
+(*    (pkgCacheID; before the fix of F19: from its own GarbleActionID only) *)
 (*    (loadPkgCache/computePkgCache, cache_pkg.go); entries are (index,     *)
 (*    data) file pairs as in go-internal/cache; anything but an intact      *)
 (*    pair is a miss.  internal/abi is compiled with the pclntab magic,     *)
@@ -39,9 +44,10 @@ CONSTANTS
   KeyFields,    \* cfg fields hashed into the tool id, as recorded from the real garble
   XNameKeyed,   \* BOOLEAN: with -literals the -X target names are part of the tool id
   MagicFrom,    \* "abi" (the code since the fix of F20) | "rt" (before: runtime's GarbleActionID)
-  FactsKey,     \* "own" (the code: entry keyed by the package's own GarbleActionID) |
-                \* "closure" (what-if repair: the key covers the action IDs of the import closure)
-  EditPkgs,     \* packages of the module that the history may edit
+  FactsKey,     \* "closure" (the code since the fix of F19: the key covers the action IDs of the import
+                \* closure) | "own" (before: entry keyed by the package's own GarbleActionID)
+  EditPkgs,     \* packages of the module that the history may edit (new exported declarations)
+  BodyEditPkgs, \* packages of the module whose function bodies the history may edit
   MaxBuilds, MaxEdits, MaxDamage
 
 Pkgs == <<"abi", "rt", "leaf", "mid", "main">>          \* topological order
@@ -91,9 +97,11 @@ NameSalt(p, cfg, s) == IF p = "none" THEN <<>> ELSE <<p, cfg.seed, IF cfg.seed #
 Magic(cfg, s) == <<"magic", cfg.seed, IF cfg.seed # "none" THEN <<>> ELSE GarbleId(IF MagicFrom = "abi" THEN "abi" ELSE "rt", cfg, s)>>
 
 (* ------------------------------------------------------------------ reflection facts *)
-OwnFacts(p, s) == IF p \in ModPkgs THEN {<<p, s[p]>>} ELSE {}
-RECURSIVE Deep(_, _)
-Deep(p, s) == IF p = "none" THEN {} ELSE OwnFacts(p, s) \cup Deep(DepOf(p), s)
+(* what a package contributes: which of its parameters reach reflection (a function of its source) and *)
+(* the obfuscated -> original name pairs of its types that do (names are hashed with its name salt)   *)
+OwnFacts(p, cfg, s) == IF p \in ModPkgs THEN {<<p, s[p], NameSalt(p, cfg, s)>>} ELSE {}
+RECURSIVE Deep(_, _, _)
+Deep(p, cfg, s) == IF p = "none" THEN {} ELSE OwnFacts(p, cfg, s) \cup Deep(DepOf(p), cfg, s)
 RECURSIVE ClosureIds(_, _, _)
 ClosureIds(p, cfg, s) == IF p = "none" THEN <<>> ELSE <<GarbleId(p, cfg, s), ClosureIds(DepOf(p), cfg, s)>>
 FactsKeyOf(p, cfg, s) == IF FactsKey = "own" THEN GarbleId(p, cfg, s) ELSE ClosureIds(p, cfg, s)
@@ -111,22 +119,33 @@ Compute(p, cfg, s, gc) ==
       depRes == IF d \notin ModPkgs THEN <<gc, {}>>
                 ELSE IF Hit(gc, FactsKeyOf(d, cfg, s)) THEN <<gc, FactsAt(gc, FactsKeyOf(d, cfg, s))>>
                 ELSE Compute(d, cfg, s, gc)
-      facts == depRes[2] \cup OwnFacts(p, s)
+      facts == depRes[2] \cup OwnFacts(p, cfg, s)
   IN <<Put(depRes[1], FactsKeyOf(p, cfg, s), p, facts), facts>>
 LoadPkgCache(p, cfg, s, gc) ==
   IF Hit(gc, FactsKeyOf(p, cfg, s)) THEN <<gc, FactsAt(gc, FactsKeyOf(p, cfg, s))>> ELSE Compute(p, cfg, s, gc)
 
 (* ------------------------------------------------------------------ layers 2 and 3: one obfuscated build *)
-(* the obfuscated object of p: everything the transformation read *)
-Out(p, cfg, s, depOut, facts) ==
+(* export data of the obfuscated object of p: its API under its obfuscated names, and what it re-exports *)
+RECURSIVE GExport(_, _, _)
+(* (export data also carries the positions of the declarations; garble hashes positions from file   *)
+(* offsets, so in an obfuscated package any edit moves them.  The recorded recompilation sets of     *)
+(* the real tool show the importers' objects changing after a body-only edit under -tiny as well,    *)
+(* where positions are removed; the model follows the observation)                                  *)
+GExport(p, cfg, s) ==
+  IF p = "none" THEN <<>>
+  ELSE <<p, s[p].api, IF Obfuscated(p, cfg) THEN s[p].body ELSE 0,
+         Proj(cfg, GoFieldsOf(p)), IF Obfuscated(p, cfg) THEN NameSalt(p, cfg, s) ELSE <<>>, GExport(DepOf(p), cfg, s)>>
+(* the obfuscated object of p: everything the transformation read.  Only main's object embeds the   *)
+(* reflection facts (the name table patched into it, and its own types' names kept or not); the     *)
+(* objects in between do not change when a dependency's facts change.                               *)
+Out(p, cfg, s, facts) ==
   [p |-> p, s |-> s[p], go |-> Proj(cfg, GoFieldsOf(p)),
    obf |-> IF Obfuscated(p, cfg) THEN Proj(cfg, ObfFieldsOf(p, cfg)) ELSE <<>>,
    salt |-> IF Obfuscated(p, cfg) THEN NameSalt(p, cfg, s) ELSE <<>>,
-   depsalt |-> IF Obfuscated(DepOf(p), cfg) THEN NameSalt(DepOf(p), cfg, s) ELSE <<>>,
    magic |-> IF p = "abi" THEN Magic(cfg, s) ELSE <<>>,
-   facts |-> IF Obfuscated(p, cfg) THEN facts ELSE {},
-   deps |-> depOut]
-(* cmd/go's action ID of the obfuscated compile *)
+   facts |-> IF p = "main" /\ Obfuscated(p, cfg) THEN facts ELSE {},
+   imp |-> GExport(DepOf(p), cfg, s)]
+(* cmd/go's action ID of the obfuscated compile: the content of the direct import's object *)
 Aid(p, cfg, s, depOut) == [p |-> p, s |-> s[p], go |-> Proj(cfg, GoFieldsOf(p)), tool |-> Proj(cfg, KeyFieldsOf(cfg)), deps |-> depOut]
 
 RECURSIVE BuildFrom(_, _, _, _, _, _, _)
@@ -139,7 +158,7 @@ BuildFrom(i, cfg, s, goc, gc, outs, compiled) ==
           THEN LET e == CHOOSE e \in goc : e.aid = aid
                IN BuildFrom(i + 1, cfg, s, goc, gc, [outs EXCEPT ![p] = e.out], compiled)
           ELSE LET lp == LoadPkgCache(p, cfg, s, gc)
-                   o == Out(p, cfg, s, depOut, lp[2])
+                   o == Out(p, cfg, s, lp[2])
                IN BuildFrom(i + 1, cfg, s, goc \cup {[aid |-> aid, out |-> o]}, lp[1],
                             [outs EXCEPT ![p] = o], compiled \cup {p})
 
@@ -147,12 +166,10 @@ NoOuts == [p \in PkgSet |-> "noout"]
 DoBuild(cfg, s, goc, gc) == BuildFrom(1, cfg, s, goc, gc, NoOuts, {})
 (* the link step is keyed by everything (cmd/go hashes the linker flags, garble passes the *)
 (* magic through the environment of every link), so it is never stale by itself           *)
-Binary(cfg, s, outs) == [main |-> outs["main"], x |-> cfg.xval, linkmagic |-> Magic(cfg, s)]
+Binary(cfg, s, outs) == [objs |-> outs, x |-> cfg.xval, linkmagic |-> Magic(cfg, s)]
 Cold(cfg, s) == Binary(cfg, s, DoBuild(cfg, s, {}, {}).outs)
 (* the program starts iff the magic in internal/abi is the one the linker wrote *)
-RECURSIVE AbiOut(_)
-AbiOut(o) == IF o.p = "abi" THEN o ELSE AbiOut(o.deps[1])
-Starts(bin) == AbiOut(bin.main).magic = bin.linkmagic
+Starts(bin) == bin.objs["abi"].magic = bin.linkmagic
 
 (* ------------------------------------------------------------------ actions *)
 Init == /\ src = [p \in PkgSet |-> [api |-> 0, body |-> 0]]
@@ -184,7 +201,7 @@ EditApi(p) ==
 (* an edit inside a function body: the package's object changes, its export data does not; *)
 (* its reflection facts may (a parameter starts to reach reflect.TypeOf)                   *)
 EditBody(p) ==
-  /\ ne < MaxEdits /\ p \in EditPkgs
+  /\ ne < MaxEdits /\ p \in BodyEditPkgs
   /\ src' = [src EXCEPT ![p].body = @ + 1]
   /\ ne' = ne + 1
   /\ last' = IF last.built THEN [last EXCEPT !.fresh = FALSE] ELSE last
@@ -229,7 +246,8 @@ NoStale == (last.built /\ last.fresh) => last.out = Cold(last.cfg, src)
 (* C06: rebuilding with nothing changed recompiles no package *)
 NoRework == last.built => ~last.rework
 (* C07: reflection facts handed to the obfuscator are the complete ones *)
-FactsComplete == (last.built /\ last.fresh /\ Obfuscated("main", last.cfg)) => last.out.main.facts = Deep("main", src)
+FactsComplete == (last.built /\ last.fresh /\ Obfuscated("main", last.cfg) /\ "main" \in last.compiled)
+                    => last.out.objs["main"].facts = Deep("main", last.cfg, src)
 (* the binary starts: the magic compiled into internal/abi is the one given to the linker *)
 MagicAgrees == (last.built /\ last.fresh) => Starts(last.out)
 
@@ -238,7 +256,7 @@ EmitHist == (nb = MaxBuilds) => PrintT(<<"HIST", ToJson(hist)>>)
 
 (* ------------------------------------------------------------------ configuration alphabets *)
 Base == [tiny |-> FALSE, lit |-> FALSE, seed |-> "none", gogarble |-> "all", ctrl |-> FALSE, tags |-> FALSE, tagsrt |-> FALSE,
-         xname |-> FALSE, xval |-> "none"]
+         xname |-> "none", xval |-> "none"]      \* xname: which variables -ldflags=-X targets ("none", "v", "c", "vc")
 CTiny == [Base EXCEPT !.tiny = TRUE]
 CLit == [Base EXCEPT !.lit = TRUE]
 CSeedA == [Base EXCEPT !.seed = "A"]
@@ -247,13 +265,16 @@ CSub == [Base EXCEPT !.gogarble = "sub"]
 CCtrl == [Base EXCEPT !.ctrl = TRUE]
 CTags == [Base EXCEPT !.tags = TRUE]
 CTagsRt == [Base EXCEPT !.tagsrt = TRUE]
-CX1 == [Base EXCEPT !.xname = TRUE, !.xval = "v1"]
-CX2 == [Base EXCEPT !.xname = TRUE, !.xval = "v2"]
-CLitX1 == [CLit EXCEPT !.xname = TRUE, !.xval = "v1"]
-CLitX2 == [CLit EXCEPT !.xname = TRUE, !.xval = "v2"]
+CX1 == [Base EXCEPT !.xname = "v", !.xval = "v1"]
+CX2 == [Base EXCEPT !.xname = "v", !.xval = "v2"]
+CLitX1 == [CLit EXCEPT !.xname = "v", !.xval = "v1"]
+CLitX2 == [CLit EXCEPT !.xname = "v", !.xval = "v2"]
+CLitXc == [CLit EXCEPT !.xname = "c", !.xval = "v1"]       \* another target
+CLitXvc == [CLit EXCEPT !.xname = "vc", !.xval = "v1"]     \* two targets, the last one as in CLitXc
 CTinyLit == [CTiny EXCEPT !.lit = TRUE]
-CfgsAll == {Base, CTiny, CLit, CSeedA, CSeedB, CSub, CCtrl, CTags, CTagsRt, CX1, CX2, CLitX1, CLitX2, CTinyLit}
+CfgsAll == {Base, CTiny, CLit, CSeedA, CSeedB, CSub, CCtrl, CTags, CTagsRt, CX1, CX2, CLitX1, CLitX2, CLitXc, CLitXvc, CTinyLit}
 CfgsNoLitX == {Base, CTiny, CLit, CSeedA, CSeedB, CSub, CCtrl, CTags, CTagsRt, CX1, CX2, CTinyLit}
 CfgsFault == {Base, CLit}
-CfgsBody == {Base, CSeedA}
+CSeedTiny == [CSeedA EXCEPT !.tiny = TRUE]
+CfgsBody == {Base, CSeedA, CSeedTiny}
 =============================================================================
